@@ -104,6 +104,11 @@ def showItem (it : Item) : String :=
 
 def showItems (l : List Item) : String := if l.isEmpty then "-" else ";".intercalate (l.map showItem)
 
+/-- the eager tractogram item by item (`tractogram[i]`) -/
+def tractoItems (t : Tracto) : List Item :=
+  (List.range t.streamlines.length).map (fun i =>
+    ⟨t.streamlines.getD i [], t.dpp.map (fun d => (d.1, d.2.getD i [])), t.dps.map (fun d => (d.1, d.2.getD i []))⟩)
+
 def showRec (r : TrkRec) : String :=
   (if r.rows.isEmpty then "e" else "|".intercalate (r.rows.map showWords)) ++ "/" ++ showWords r.props
 
@@ -146,6 +151,18 @@ def handle : List String → String
           let n := tckHdrOffset l
           s!"{n} {tckDataStart l n} {showSl (tckData sls)}"
       | _, _ => "bad-op"
+  | ["tckf", out, req, sls] =>
+      match parseWords? out, req.toNat?, parseSls? sls with
+      | some out, some req, some sls =>
+          let c := tckBufferBytes req / 12
+          let bytes := tckWriteFile out sls
+          match tckAnnounced out.length bytes with
+          | none => "ann=none bytes=" ++ showWords bytes
+          | some ann =>
+              let run := tckReadFile c ann bytes
+              s!"ann={ann} bytes={showWords bytes} items={showSls (run.items.map (·.1))} end=" ++
+                (match run.err with | none => "ok" | some e => e.name)
+      | _, _, _ => "bad-op"
   | ["tckr", off, req, ragged, start, acts, data] =>
       match off.toNat?, req.toNat?, ragged.toNat?, start.toNat?, parseActs? acts, parseSl? data with
       | some off, some req, some ragged, some start, some acts, some data =>
@@ -210,12 +227,22 @@ def handle : List String → String
                            match trkLoadItems h words with
                            | .error e => hdr ++ " load=" ++ e.name
                            | .ok loaded =>
-                               -- eager: `tractogram.to_world()`; lazy: `LazyTractogram.data` with the pending affine
-                               match lazyItems t loaded, lazyStreamlines t loaded with
-                               | some ras, some sls =>
-                                   if ras.map (·.pts) = sls then hdr ++ " load=" ++ showItems ras ++ " lazy=" ++ showItems ras
-                                   else hdr ++ " load=" ++ showItems ras ++ " lazy=differs"
-                               | _, _ => hdr ++ " load=inexact")
+                               -- lazy item iteration: `LazyTractogram.data` with the pending affine;
+                               -- eager: the `ArraySequence` path (`trkEager`), compared with the lazy dict view
+                               let eagerT : Option Tracto × Option Tracto × Bool := match nameSlices h.ns h.scalarFields scalarsName,
+                                                   nameSlices h.np h.propFields propertiesName with
+                                 | .ok dppS, .ok dpsS =>
+                                     let recs : List TrkRec := (trkRead h.ns h.np h.nStreams 0 words).items.map (fun x => x.1)
+                                     (trkEager t dppS dpsS recs, trkLazy t dppS dpsS recs, recs.isEmpty)
+                                 | _, _ => (none, none, true)
+                               match lazyItems t loaded, lazyStreamlines t loaded, eagerT with
+                               | some ras, some sls, (some eg, lz, noRecs) =>
+                                   let eagerItems := tractoItems eg
+                                   let flag := if noRecs || lz == some eg then "" else " lazyT=differs"
+                                   if ras.map (fun (it : Item) => it.pts) = sls then
+                                     hdr ++ " load=" ++ showItems eagerItems ++ " lazy=" ++ showItems ras ++ flag
+                                   else hdr ++ " load=" ++ showItems eagerItems ++ " lazy=differs"
+                               | _, _, _ => hdr ++ " load=inexact")
       | _, _, _, _ => "bad-op"
   | ["trkr", ns, np, announced, junk, start, acts, words] =>
       match ns.toNat?, np.toNat?, announced.toNat?, junk.toNat?, start.toNat?, parseActs? acts, parseWords? words with
